@@ -521,6 +521,28 @@ int gettimeofday(struct timeval* tv, void*) {
     return 0;
 }
 
+// sleeps: under the simulated clock a sleep costs nothing, advances simulated time and is a scheduling point (the
+// syscall hook runs: whoever shares the files with the sleeper may make progress, e.g. the writer an ESMRY reader waits for)
+static int sim_sleep(const struct timespec* req) {
+    auto& s = S();
+    if (!req || req->tv_sec < 0 || req->tv_nsec < 0 || req->tv_nsec >= 1000000000L) { errno = EINVAL; return -1; }
+    s.wall += static_cast<double>(req->tv_sec) + 1e-9 * static_cast<double>(req->tv_nsec);
+    ++s.counters["clock.sleep"];
+    sim::run_hook("sleep", "CLOCK", "");
+    return 0;
+}
+int nanosleep(const struct timespec* req, struct timespec* rem) {
+    auto& s = S();
+    if (s.clk_on && !s.pass) { if (rem) { rem->tv_sec = 0; rem->tv_nsec = 0; } return sim_sleep(req); }
+    return static_cast<int>(syscall(SYS_nanosleep, req, rem));
+}
+int clock_nanosleep(clockid_t id, int flags, const struct timespec* req, struct timespec* rem) {
+    auto& s = S();
+    if (s.clk_on && !s.pass && flags == 0) { if (rem) { rem->tv_sec = 0; rem->tv_nsec = 0; } return sim_sleep(req) == 0 ? 0 : EINVAL; }
+    long rc = syscall(SYS_clock_nanosleep, id, flags, req, rem);
+    return rc == 0 ? 0 : errno;
+}
+
 
 // ---- string-to-number over-read detector ---------------------------------------------------
 // ASan does not intercept strtof/strtod; a call on an unterminated heap buffer reads on into whatever follows it and the
